@@ -218,8 +218,16 @@ func (cv *c05Conv) run(idx int, discipline string, rng *rand.Rand) (*c05Obs, ses
 		case "split": // command lines and payloads in separate writes, payloads octet by octet
 			for _, s := range steps {
 				segs = append(segs, s.wire[:s.lineEnd])
-				for i := s.lineEnd; i < len(s.wire); i++ {
-					segs = append(segs, s.wire[i:i+1])
+				step := 1
+				if n := len(s.wire) - s.lineEnd; n > 24 {
+					step = (n + 23) / 24 // long payloads: at most 24 pieces
+				}
+				for i := s.lineEnd; i < len(s.wire); i += step {
+					j := i + step
+					if j > len(s.wire) {
+						j = len(s.wire)
+					}
+					segs = append(segs, s.wire[i:j])
 				}
 			}
 		default:
@@ -331,7 +339,7 @@ func init() {
 		zs := tourSome(run, dumpEdges("MC_Size", "Dump_Size.cfg"), func(e *sessrep.Edge) bool { return e.Lbl.Cmd.C == "BDAT" })
 		nconv := 300
 		if tier == "thorough" {
-			nconv = 5000
+			nconv = 2000
 		}
 		rng := rand.New(rand.NewSource(run.Seed))
 		convs := genC05(rng, nconv)
